@@ -227,6 +227,41 @@ theorem losers_never_loaded (l : List Rec) (h2 : 2 ≤ l.length) (hin : NoSuspen
   · intro hnr; exact h1 (hlost r'' hr'out hnr).1
   · intro hret; exact h2' (mem_retained.mp hret).2
 
+/-- **a single winner is loaded as it was saved** (audit-2 GAP C08-1, end to end): when the read is retained on exactly
+    one record, the loader hands the full record of that alignment to the consumers unchanged - exactly what
+    `loader_keeps_unique_reads` gives for a read that has no other alignment at all.  (`hagree`: the full record and its
+    compact copy carry the same types and flag - `BasicReadAssignment.__init__` copies them.) -/
+theorem single_winner_loaded_as_is (l : List Rec) (h2 : 2 ≤ l.length) (hin : NoSuspendedInput l)
+    (huniq : l.Pairwise (fun a b => ¬ (a.aid = b.aid ∧ a.chr = b.chr)))
+    (out : List Rec) (hout : resolve .take_best l = some out)
+    (c : Nat) (dict : List (Nat × List Rec)) (ra : Full)
+    (hdict : dict.lookup ra.readId = some (out.filter (fun r => r.chr == c)))
+    (r' : Rec) (h1 : retained out = [r']) (hc : r'.chr = c) (hra : ra.aid = r'.aid ∧ ra.chr = r'.chr)
+    (hagree : ra.atype = r'.atype ∧ ra.gtype = r'.gtype ∧ ra.multimapper = r'.multimapper) :
+    loadOne dict ra = some ra := by
+  obtain ⟨i, hi, hi'⟩ := single_winner_untouched l h2 hin out hout r' h1
+  have hmem : r' ∈ retained out := by rw [h1]; simp
+  have := (losers_never_loaded l h2 hin huniq out hout c dict ra hdict i r' r' hi hi' hc hra).2 hmem
+  rw [this, ← hagree.1, ← hagree.2.1, ← hagree.2.2]
+
+/-- what the pre-fix flag rule did to the same read: the only retained record is loaded as a multimapper and contributes
+    no intron and no edge - with the loser absent (`loader_keeps_unique_reads`) the same record contributes its introns -/
+theorem single_winner_flow_witness :
+    let ra : Full := { aid := 1, readId := 0, chr := 0, atype := .inconsistent_ambiguous, gtype := .inconsistent,
+                       multimapper := false, introns := [(321, 340)], isoforms := [0, 1] }
+    (match selectBestAssignmentBuggyFlag witnessSingle with
+     | none => false
+     | some out =>
+       let loaded := (loadOne [(0, out.filter (fun r => r.chr == 0))] ra).toList
+       (loaded.map (·.multimapper) == [true]) && (collectIntrons loaded == [])) = true ∧
+    (match resolve .take_best witnessSingle with
+     | none => false
+     | some out =>
+       let loaded := (loadOne [(0, out.filter (fun r => r.chr == 0))] ra).toList
+       (loaded == [ra]) && (collectIntrons loaded == [(321, 340)])) = true ∧
+    collectIntrons (loadOne [] ra).toList = [(321, 340)] := by
+  refine ⟨by decide, by decide, by decide⟩
+
 /-- a read that is not in the verdict dict (a single alignment record) is loaded as it is -/
 theorem loader_keeps_unique_reads (dict : List (Nat × List Rec)) (ra : Full) (h : dict.lookup ra.readId = none) :
     loadOne dict ra = some ra := by simp [loadOne, h]
@@ -300,5 +335,11 @@ example : 2 ≤ witnessTie.length ∧ NoSuspendedInput witnessTie ∧
        (loadOne dict ra1 == none) &&
        ((loadOne dict ra2).map (fun f => (f.atype, f.multimapper)) == some (.ambiguous, true))) = true := by
   refine ⟨by decide, by decide, by decide⟩
+
+-- `single_winner_loaded_as_is` is live: the read of `witnessSingle`, verdict file of chromosome 0
+example : 2 ≤ witnessSingle.length ∧ NoSuspendedInput witnessSingle ∧
+    witnessSingle.Pairwise (fun a b => ¬ (a.aid = b.aid ∧ a.chr = b.chr)) ∧
+    (resolve .take_best witnessSingle).map retained = some [witnessSingle[0]] := by
+  refine ⟨by decide, by decide, by decide, by decide⟩
 
 end IsoVerif.Props.C08Flow
